@@ -489,3 +489,109 @@ def nsi_global_efficiency(A, w):
     D = nsi_distances(A)
     w = np.asarray(w, dtype=float)
     return w @ (1.0 / D) @ w / w.sum() ** 2
+
+
+# ------------------------------------------- further n.s.i. measures (loops)
+# Heitzig et al. 2012: every sum over neighbours runs over the extended
+# neighbourhood N+_i = N_i + {i} and weighs node j with w_j.
+
+def _nplus(A):
+    U = sym(A)
+    n = len(U)
+    return [[j for j in range(n) if U[i, j] or j == i] for i in range(n)]
+
+
+def nsi_transitivity(A, w):
+    nb = _nplus(A)
+    k = nsi_degree(A, w)
+    num = 0.0
+    for i in range(len(nb)):
+        for j in nb[i]:
+            for l in nb[i]:
+                if l in nb[j]:
+                    num += w[i] * w[j] * w[l]
+    return num / float(np.sum(w * k * k))
+
+
+def nsi_average_neighbors_degree(A, w):
+    nb = _nplus(A)
+    k = nsi_degree(A, w)
+    return np.array([sum(w[j] * k[j] for j in nb[i]) / k[i]
+                     for i in range(len(nb))])
+
+
+def nsi_max_neighbors_degree(A, w):
+    nb = _nplus(A)
+    k = nsi_degree(A, w)
+    return np.array([max(k[j] for j in nb[i]) for i in range(len(nb))])
+
+
+def nsi_bildegree(A, w):
+    """Weight of the extended neighbourhood reached by links in both
+    directions (the node itself included)."""
+    A = np.asarray(A)
+    n = len(A)
+    return np.array([sum(w[j] for j in range(n)
+                         if j == i or (A[i, j] and A[j, i]))
+                     for i in range(n)])
+
+
+def nsi_laplacian(A, w):
+    nb = _nplus(A)
+    k = nsi_degree(A, w)
+    n = len(nb)
+    L = np.zeros((n, n))
+    for i in range(n):
+        L[i, i] += k[i]
+        for j in nb[i]:
+            L[i, j] -= w[j]
+    return L
+
+
+def nsi_local_soffer_clustering(A, w):
+    nb = _nplus(A)
+    k = nsi_degree(A, w)
+    out = np.zeros(len(nb))
+    for i in range(len(nb)):
+        num = sum(w[j] * w[l] for j in nb[i] for l in nb[i] if l in nb[j])
+        den = sum(w[j] * min(k[i], k[j]) for j in nb[i])
+        out[i] = num / den
+    return out
+
+
+def nsi_twinness(A, w):
+    nb = _nplus(A)
+    k = nsi_degree(A, w)
+    n = len(nb)
+    T = np.zeros((n, n))
+    for i in range(n):
+        for j in nb[i]:
+            common = sum(w[l] for l in nb[i] if l in nb[j])
+            T[i, j] = common / max(k[i], k[j])
+    return T
+
+
+def nsi_eigenvector_centrality(A, w):
+    """Leading eigenvector of sqrt(Dw) A+ sqrt(Dw), divided by sqrt(w),
+    normalised to a maximum of 1 (connected undirected graphs)."""
+    U = sym(A) + np.eye(len(A), dtype=int)
+    s = np.sqrt(np.asarray(w, dtype=float))
+    M = s[:, None] * U * s[None, :]
+    vals, vecs = np.linalg.eigh(M)
+    v = vecs[:, -1] / s
+    v = v * np.sign(v[np.argmax(np.abs(v))])
+    return v / v.max()
+
+
+def weighted_local_clustering(Wm):
+    """Holme et al. 2007: sum_jk w_ij w_jk w_ki / (max(w) sum_jk w_ij w_ki)."""
+    Wm = np.asarray(Wm, dtype=float)
+    n = len(Wm)
+    mx = Wm.max()
+    out = np.zeros(n)
+    for i in range(n):
+        num = sum(Wm[i, j] * Wm[j, l] * Wm[l, i]
+                  for j in range(n) for l in range(n))
+        den = mx * sum(Wm[i, j] * Wm[l, i] for j in range(n) for l in range(n))
+        out[i] = num / den if den else np.nan
+    return out
